@@ -29,6 +29,8 @@ Init == \/ Kind = "raw" /\ \E k \in 0..MaxBits : \E b \in Bits(k) : c = [t |-> "
         \/ Kind = "bv" /\ \E k \in 0..MaxBits : \E b \in Bits(k) : c = [t |-> "bv", bits |-> b]
         \/ Kind = "sparse" /\ \E n \in 0..MaxN : \E S \in SUBSET (0..(n - 1)) : \E w \in 1..3 : c = [t |-> "sparse", n |-> n, ps |-> SetToSortSeq(S, <), w |-> w]
         \/ Kind = "sparse" /\ \E n \in {100, 1000} : \E S \in {{}, {0}, {n - 1}, {0, 7, 8, 63, 64, n - 1}} : \E w \in {1, 3, 6, 9} : c = [t |-> "sparse", n |-> n, ps |-> SetToSortSeq(S, <), w |-> w]
+        \* every low-part width the document admits is a writer-side choice: wide ones (a single bucket), up to the 64 bits of an integer vector
+        \/ Kind = "sparse" /\ \E n \in {1, 100} : \E S \in {{}, {0}, {n - 1}, {3, 50} \cap (0..(n - 1))} : \E w \in {7, 20, 31, 32, 33, 62, 63, 64} : c = [t |-> "sparse", n |-> n, ps |-> SetToSortSeq(S, <), w |-> w]
         \/ Kind = "rl" /\ \E r \in RLCases : c = [t |-> "rl", runs |-> r.runs, extra |-> r.extra,
                                                    n |-> (IF Len(r.runs) = 0 THEN 0 ELSE r.runs[Len(r.runs)][1] + r.runs[Len(r.runs)][2]) + r.tail]
         \/ Kind = "wm" /\ \E v \in Vecs({0, 1, 2, 3}, 4) \cup Vecs({0, 5}, 3) \cup Vecs({7}, 2) : \E core \in BOOLEAN : c = [t |-> IF core THEN "wmcore" ELSE "wm", vals |-> v]
